@@ -255,6 +255,21 @@ func (d *driver) runDecodeCase(w emitter, k int, c *decCase) {
 					e["panic"] = fmt.Sprint(r)
 				}
 			}()
+			// history: for every second member the TRUSTED decoders see the same bytes first (whatever they leave behind - caches keyed by
+			// the encoding, hints - must not change what the untrusted decoder decides)
+			if i%2 == 1 {
+				func() {
+					defer func() { recover() }()
+					var t1, t2 banderwagon.Element
+					if len(buf) >= 32 {
+						t1.SetBytesUnsafe(buf[:32])
+					}
+					if len(buf) == 64 {
+						t2.SetBytesUncompressed(buf, true)
+					}
+				}()
+				e["pre"] = "trusted"
+			}
 			var el banderwagon.Element
 			var err error
 			switch c.Fn {
